@@ -32,8 +32,8 @@ TR_SPELL_HAS_R = [True, True, True, False, True, True, True, True, True, True]
 SECW = ['Sec ', 'Section ', 'Sec. ', 'Sect. ', '§ ', 'Sec', 'SECTION ', 'section ']
 SECW_PLURAL = {'Sec ': 'Secs ', 'Section ': 'Sections ', 'Sec. ': 'Secs. ', 'Sect. ': 'Sects. ',
                '§ ': '§ ', 'Sec': 'Secs', 'SECTION ': 'SECTIONS ', 'section ': 'sections '}
-ANDW = [' and ', ', ', ' & ']
-THRU = [' - ', '-', ' through ', ' thru ', ' to ', ' – ']
+ANDW = [' and ', ', ', ' & ', ' AND ', ' And ']
+THRU = [' - ', '-', ' through ', ' thru ', ' to ', ' – ', ' Through ', ' THRU ', ' To ']
 CONN = [' of ', ' in ', ', ']
 SEP = [', ', '; ', '\n', ' ']
 COLON = [': ', ' : ', ':\n', ' :\n', ':']
